@@ -32,9 +32,9 @@ def val(x):
     return {"k": "other", "n": 0, "s": type(x).__name__}
 
 
-def P(name, kind, ann=True, default=None, alias_from=(), priv=False):
+def P(name, kind, ann=True, default=None, alias_from=(), priv=False, alias=None):
     return {"name": name, "kind": kind, "ann": ann, "hasdef": default is not None, "def": val(default) if default is not None else val(None),
-            "keys": [name] + list(alias_from), "priv": priv, "_default": default}
+            "keys": [name] + ([alias] if alias else []) + list(alias_from), "priv": priv, "_default": default, "_alias": alias}
 
 
 def gen_sig(rng):
@@ -57,13 +57,14 @@ def gen_sig(rng):
                 d = rng.choice([5, 6, 7])
                 seen_default = True
             sig.append(P(nm, kind, ann=rng.random() < 0.8, default=d, priv=priv,
-                         alias_from=[nm + nm] if (kind == "pk" and not priv and rng.random() < 0.3) else ()))
+                         alias_from=[nm + nm] if (kind == "pk" and not priv and rng.random() < 0.3) else (),
+                         alias=(nm.upper() + "L") if (kind == "pk" and not priv and rng.random() < 0.25) else None))
     if va:
         sig.append(P("args", "va", ann=rng.random() < 0.7))
     for _ in range(nko):
         nm = next(names)
         sig.append(P(nm, "ko", ann=rng.random() < 0.8, default=rng.choice([None, 8]),
-                     alias_from=[nm + nm] if rng.random() < 0.3 else ()))
+                     alias_from=[nm + nm] if rng.random() < 0.3 else (), alias=(nm.upper() + "L") if rng.random() < 0.2 else None))
     if vk:
         sig.append(P("kw", "vk", ann=rng.random() < 0.7))
     return sig
@@ -86,7 +87,9 @@ def source(sig, ctx):
             else:
                 s = p["name"] + ann
                 if decorated and len(p["keys"]) > 1:
-                    s += " = utype.Param(%salias_from=%r)" % (("%r, " % p["_default"]) if p["hasdef"] else "", p["keys"][1:])
+                    af = [k for k in p["keys"][1:] if k != p["_alias"]]
+                    s += " = utype.Param(%s%s%s)" % (("%r, " % p["_default"]) if p["hasdef"] else "",
+                                                      ("alias=%r, " % p["_alias"]) if p["_alias"] else "", ("alias_from=%r" % af) if af else "")
                 elif p["hasdef"]:
                     s += " = %r" % p["_default"]
                 out.append(s)
